@@ -36,7 +36,6 @@ inductive PErr where
   had already advanced past the last of them (used by the lazy-lexing layer `parseLazy`) -/
   | syntax (pos : Nat) (bad : Bool) (left : Nat)
   | fuel
-  | noEOF
 deriving DecidableEq, Repr
 
 structure PState where
@@ -621,7 +620,7 @@ def parseToks (toks : List Token) (eofPos : Nat) : Except PErr Parsed :=
 def parseTokens (all : List Token) : Except PErr Parsed :=
   match splitEOF all with
   | some (toks, e) => parseToks toks e.start
-  | none => .error .noEOF
+  | none => .error (.syntax 0 false 0)  -- no EOF token: not a lexer output
 
 /-- `parser.ParseValue` -/
 def parseValueTokens (all : List Token) : Except PErr Value :=
@@ -630,7 +629,7 @@ def parseValueTokens (all : List Token) : Except PErr Value :=
     match parseValue false (initState toks e.start) with
     | .ok (v, _) => .ok v
     | .error e => .error e
-  | none => .error .noEOF
+  | none => .error (.syntax 0 false 0)  -- no EOF token: not a lexer output
 
 /-! ## Lazy lexing: a malformed lexeme after the tokens
 
@@ -659,7 +658,6 @@ def parseLazy (toks : List Token) : LazyOut :=
   | .ok _ => .lexError
   | .error (.syntax pos _ left) => if 0 < left then .syntax pos else .lexError
   | .error .fuel => .fuel
-  | .error .noEOF => .lexError
 
 /-- the decidable known-finding predicate of D-03b, on the complete token list -/
 def typeRefMalformed (all : List Token) : Bool :=
